@@ -634,3 +634,121 @@ def buffer_rules(self):
 
 
 HashRules.buffer = buffer_rules
+
+
+# ------------------------------------------------------------------------------------------------
+# R07.g: behaviour of the file buffer object for a reduced unit count (representation independent)
+def buffer_simulation(self, tier='quick'):
+    """The buffer object is driven exactly as the file-hash driver drives it (construct, then read until the first short
+    unit) over an abstract file of n named bytes, with the unit-count constant overridden by 2 (capacity 128 bytes) so that
+    every refill boundary is within reach.  The delivered chunks must be: prefix block (if any), then the file bytes in order,
+    all chunks 64 bytes except the last.  Decided for every n in the explored range; the code is assumed parametric in the
+    constant (it appears only as an array bound, in the refill test and in the read size)."""
+    prog, rec = self.prog, self.rec
+    R = prog.records.get('filebuffer64')
+    if R is None:
+        cands = [x for x in prog.records.values() if any(b['q'] == 'buffer64' for b in x['bases'])]
+        if len(cands) != 1:
+            raise AnalysisBroken('file buffer class not found')
+        R = cands[0]
+    Rq = R['q']
+    consts = [g for g in prog.globals.values() if g['q'].startswith(Rq + '::') and isinstance(g.get('value'), int) and g.get('const')]
+    if len(consts) != 1:
+        raise AnalysisBroken('unit count constant of the file buffer not found')
+    cname = consts[0]['q']
+    H = 2
+    cap = H * 64
+    ctor = next(f for f in prog.functions.values() if f.get('ctor') and f.get('rec') == Rq)
+    rd = next(prog.functions[m['id']] for m in R['methods'] if m['n'] == 'read_buffer64' and m['id'] in prog.functions)
+    where = '%s:%s' % (rd['file'], rd['line'])
+    lens = list(range(0, 3 * cap + 72)) if tier == 'thorough' else sorted(set(
+        list(range(0, 70)) + list(range(cap - 66, cap + 70)) + list(range(2 * cap - 66, 2 * cap + 70)) + list(range(3 * cap - 2, 3 * cap + 3))))
+    bad = []
+    runs = 0
+    FBO = ('ext', 'fbuf')
+    for with_pfx in (True, False):
+        for n in lens:
+            fsym = [sym('f%d' % i) for i in range(n)]
+
+            def fread_file(I, st, fr, nd, dst, sz, cnt, f, root):
+                pos = st.comps.get(('cfpos', root), 0)
+                want = cnt[1] * sz[1] if cnt[0] == 'c' and sz[0] == 'c' else None
+                if want is None or dst[0] != 'p' or not dst[2] or not isinstance(dst[2][-1], int):
+                    return None
+                k = max(0, min(want, n - pos))
+                es = I.elem_size_hint(nd['args'][0])
+                base = dst[2][:-1]
+                r0 = dst[2][-1]
+                for t in range(k):
+                    if es > 1:
+                        st.mem[(dst[1], base + (r0 + t // es, t % es))] = fsym[pos + t]
+                    else:
+                        st.mem[(dst[1], base + (r0 + t,))] = fsym[pos + t]
+                st.comps[('cfpos', root)] = pos + k
+                return [(st, C(k))]
+
+            I = interp.Interp(prog, models=dict(models.STD_MODELS))
+            I.const_override = {cname: H}
+            I.fread_override = fread_file
+            I.concrete_loops = True
+            I.name_intervals = False
+            st = interp.State()
+            for i in range(n):
+                st.sym['f%d' % i] = (0, 255)
+            for i in range(64):
+                st.sym['px%d' % i] = (0, 255)
+                st.mem[(PFX, (i,))] = sym('px%d' % i)
+            res = I.run(ctor, st, this=P(FBO, ()), args=[P(('file', 'f'), ()), ('opaque', 'cb'), P(PFX, (0,)) if with_pfx else NULL])
+            runs += 1
+            if len(res) != 1 or I.unmodelled:
+                bad.append((with_pfx, n, 'constructor: %d paths %s' % (len(res), I.unmodelled[:1])))
+                continue
+            s = res[0][0]
+            expected = ([sym('px%d' % i) for i in range(64)] if with_pfx else []) + fsym
+            delivered = []
+            okrun = True
+            for call in range(len(expected) // 64 + 3):
+                for i in range(64):
+                    s.mem[(BLK, (i,))] = ('opaque', 'stale')
+                r = I.run(rd, s, this=P(FBO, ()), args=[P(BLK, (0,)), ('opaque', 'cb')])
+                if len(r) != 1 or r[0][1][0] != 'c' or I.unmodelled:
+                    bad.append((with_pfx, n, 'call %d: %d paths, returns %s %s' % (call, len(r), show(r[0][1]) if r else '-', I.unmodelled[:1])))
+                    okrun = False
+                    break
+                s, v = r[0]
+                k = v[1]
+                if not (0 <= k <= 64):
+                    bad.append((with_pfx, n, 'call %d returns %d' % (call, k)))
+                    okrun = False
+                    break
+                delivered += [s.mem.get((BLK, (i,))) for i in range(k)]
+                if k < 64:
+                    break
+            else:
+                bad.append((with_pfx, n, 'no short unit after %d calls' % (len(expected) // 64 + 3)))
+                okrun = False
+            if okrun and delivered != expected:
+                d = next((i for i in range(min(len(delivered), len(expected))) if delivered[i] != expected[i]), min(len(delivered), len(expected)))
+                bad.append((with_pfx, n, 'delivered %d bytes, expected %d; first difference at stream offset %d' % (len(delivered), len(expected), d)))
+    rec.ob('R07.g', 'R07.g@%s::buffer-delivers-prefix-then-file-in-order' % fkey(rd), not bad, where,
+           'unit count overridden to %d (capacity %d bytes): for %d file lengths x (with/without prefix block) the chunks read until the first short one are exactly prefix || file bytes, 64 bytes each but the last: %s' % (
+               H, cap, len(lens), 'yes (%d object lifetimes)' % runs if not bad else 'NO: prefix=%s length %d: %s' % bad[0]))
+    rec.count('R07.g buffer simulations', runs, 2 * len(lens))
+    rec.assume('the file buffer code is parametric in its unit-count constant (array bound, refill test and read size only)')
+
+
+HashRules.buffer_sim = buffer_simulation
+
+_orig_buffer = HashRules.buffer
+
+
+def _buffer_tolerant(self):
+    """The inductive-invariant rule knows one representation; if the class no longer has it, the representation-independent
+    simulation (R07.g) carries the verdict alone."""
+    try:
+        _orig_buffer(self)
+    except AnalysisBroken as e:
+        self.rec.extra['buffer_invariant_rule'] = 'skipped: %s' % e
+
+
+HashRules.buffer = _buffer_tolerant
